@@ -363,3 +363,74 @@ def _(v):
     v.prove_identity("concentration_B_same_physical_value", _c["B"] * si_value(uc), si_value(cB * cu))
     v.prove_identity("parameter_same_physical_value", _p["k"] * si_value(up), si_value(k * ku))
     v.prove("keys_kept", set(_c) == {"A", "B"} and set(_p) == {"k"})
+
+
+@harness("C10", "parameters_given_at_run_time", functions=["chempy.kinetics.ode:get_odesys", "chempy.kinetics.ode:get_odesys.<locals>.<lambda>", "chempy.util._expr:Expr.dedimensionalisation",
+                                                         "chempy.kinetics.rates:Eyring", "chempy.units:to_unitless"], kind="data")
+def _(v):
+    """(a) a value handed in at run time for a free constant is checked against the unit reported for its key: wrong dimension (a first-order unit
+    for a second-order step, a concentration, a bare number) is refused, a compatible unit is converted; (b) an argument DEFAULT that carries a unit
+    (the standard concentration 1 M of an Eyring expression whose other arguments are given by key only) is expressed in the registry's
+    concentration unit like any explicit argument: the physical rate is the hand-computed one in every registry, for orders 1, 2 and 3"""
+    import math
+    import warnings
+    import numpy as np
+    from chempy.chemistry import Reaction
+    from chempy.reactionsystem import ReactionSystem
+    from chempy.kinetics.ode import get_odesys
+    from chempy.kinetics.rates import MassAction, Eyring
+    from chempy.units import SI_base_registry, default_units as u, to_unitless
+    warnings.simplefilter("ignore")
+    regs = {"SI": dict(SI_base_registry), "dm_min_umol": dict(SI_base_registry, length=u.decimetre, time=u.minute, amount=u.micromole), "cm_h": dict(SI_base_registry, length=u.centimetre, time=u.hour)}
+    k1, k2 = 3.0 / u.mM / u.minute, 0.5 / u.hour
+    rsys = ReactionSystem([Reaction({"A": 2}, {"B": 1}, MassAction([k1], unique_keys=["k1"])), Reaction({"B": 1}, {"A": 2}, MassAction([k2], unique_keys=["k2"]))], "A B")
+    c0 = {"A": 2 * u.mM, "B": 1 * u.uM}
+    accepted, converted = [], []
+    for name, reg in regs.items():
+        odesys, extra = get_odesys(rsys, include_params=False, unit_registry=reg)
+        for label, wrong in (("first_order_unit_for_k1", {"k1": 4.0 / u.s, "k2": k2}), ("second_order_unit_for_k2", {"k1": k1, "k2": 4.0 / u.mM / u.s}), ("concentration_for_k2", {"k1": k1, "k2": 4.0 * u.mM}),
+                             ("bare_number_for_k1", {"k1": 4.0, "k2": k2})):
+            try:
+                odesys.to_arrays(0 * u.s, c0, wrong)
+                accepted.append((name, label))
+            except Exception:
+                pass
+        x, y, p = odesys.to_arrays(0 * u.s, c0, {"k1": 50.0 / u.M / u.s, "k2": 0.5 / 60 / u.minute})
+        x2, y2, p2 = odesys.to_arrays(0 * u.s, c0, {"k1": k1, "k2": k2})
+        if not np.allclose(np.asarray(p, dtype=float), np.asarray(p2, dtype=float), rtol=1e-12, atol=0):
+            converted.append((name, list(np.ravel(p)), list(np.ravel(p2))))
+    v.prove("wrong_dimension_refused_at_run_time", not accepted, detail=repr(accepted[:4]))
+    v.prove("compatible_unit_converted_at_run_time", not converted, detail=repr(converted[:2]))
+    # (b)
+    T = 310 * u.K
+    eyr = {"a1": 2e10 / u.K / u.s, "b1": 7000 * u.K, "a2": 1e10 * 60 / u.K / u.minute, "b2": 6000 * u.K, "a3": 3e7 / u.K / u.ms, "b3": 5500 * u.K}
+    hand = lambda a_per_K_s, b_K: a_per_K_s * 310 * math.exp(-b_K / 310)          # standard concentration 1 M: k in M**(1-order)/s
+    ks = (hand(2e10, 7000), hand(1e10, 6000), hand(3e10, 5500))
+    cA, cB, cC = 2e-3, 3e-3, 0.5
+    r1, r2, r3 = ks[0] * cA, ks[1] * cA * cB, ks[2] * cC ** 2 * cA
+    ref = [-r1 - r2 - r3, r1 - r2, r2 - 2 * r3, r3]
+    c0 = {"A": 2 * u.mM, "B": 3e3 * u.uM, "C": 0.5 * u.molar, "D": 0 * u.mol / u.m3}
+    bad = []
+    for mode in ("keys_only.substituted", "keys_only.run_time", "explicit"):
+        rx = (lambda i: MassAction(Eyring([eyr["a%d" % i], eyr["b%d" % i]]))) if mode == "explicit" else (lambda i: MassAction(Eyring.fk("a%d" % i, "b%d" % i)))
+        sys_e = ReactionSystem([Reaction({"A": 1}, {"B": 1}, rx(1)), Reaction({"A": 1, "B": 1}, {"C": 1}, rx(2)), Reaction({"C": 2, "A": 1}, {"D": 1}, rx(3))], "A B C D")
+        for name, reg in regs.items():
+            try:
+                if mode == "keys_only.substituted":
+                    odesys, extra = get_odesys(sys_e, unit_registry=reg, substitutions=eyr)
+                    params = {"temperature": T}
+                elif mode == "keys_only.run_time":
+                    odesys, extra = get_odesys(sys_e, unit_registry=reg, include_params=False)
+                    params = dict(eyr, temperature=T)
+                else:
+                    odesys, extra = get_odesys(sys_e, unit_registry=reg)
+                    params = {"temperature": T}
+                x, y, p = odesys.to_arrays(0 * u.s, c0, params)
+                f = np.asarray(odesys.f_cb(np.ravel(x)[0], np.ravel(y), np.ravel(p)), dtype=float).ravel()
+                unit = reg["amount"] / reg["length"] ** 3 / reg["time"]
+                phys = [float(to_unitless(fi * unit, u.molar / u.s)) for fi in f]
+                if not np.allclose(phys, ref, rtol=1e-9, atol=0):
+                    bad.append((mode, name, phys, ref))
+            except Exception as ex:
+                bad.append((mode, name, repr(ex)[:160]))
+    v.prove("default_standard_concentration_in_registry_units", not bad, detail=repr(bad[:2]))
